@@ -25,6 +25,8 @@ def check(prog, run):
     run.rule("R-gram", "pLSCF: every inverse / linear solve inside the order loop is taken of a matrix built for THAT order (no block of the inverse of a larger Gramian)", 3)
     run.rule("R-pad", "Fns, Xis, Lambds padded by zip_longest(fillvalue=nan), Phi by a NaN-filled array: rectangular tables", 4)
     mapform.map_obligations(prog, run, "R-map", POLY, {"methodSy": "per"}, "methodSy=per", (0, 1, 3))
+    run.rule("R-grid", "pLSCF samples its basis function on Nf lines from 0 to the Nyquist frequency inclusive", 1)
+    basis_grid(prog, run)
     blank(prog, run)
     gram(prog, run)
     units(prog, run)
@@ -57,6 +59,72 @@ def _blank_sites(prog, pf, e):
         elif isinstance(c, ast.IfExp):
             out.append((c.test, c.body, c.orelse, c))
     return out
+
+
+def basis_grid(prog, run):
+    """R-grid: the basis function exp(+-j omega_k dt) is sampled on the grid of the spectral lines it is fitted to: Nf lines from 0 to the
+    Nyquist frequency INCLUSIVE (spacing fs / (2 (Nf - 1))) - the grid every spectral estimator of the package returns"""
+    from .. import symidx
+    from ..poly import P, P_div
+    fi = prog.func("functions.plscf.pLSCF")
+    f = rel(prog.mods[fi.mod].path)
+    pos, _, _, _ = astq.params_of(fi.node)
+    pSy, pdt = pos[0], pos[1]
+    exps = [c for c in ast.walk(fi.node) if isinstance(c, ast.Call) and astq.callee_name(prog, fi, c) == "numpy.exp" and c.args]
+    grids = []
+    for c in exps:
+        x = astq.expr_at(fi, c, c.args[0], keep=(pSy, pdt))
+        for g in ast.walk(x):
+            if isinstance(g, ast.Call) and astq.callee_name(prog, fi, g) in ("numpy.linspace", "numpy.arange"):
+                grids.append((c, x, g))
+    if not grids:
+        run.ob("R-grid", fi.qual, "frequency grid of the basis function", None, "no exp(... linspace/arange ...) basis function found", file=f)
+        return
+    se = symidx.SymEval(prog, fi, stop={pSy, pdt})
+    se.atoms = True
+    nf = P.s(f"{pSy}.shape[2]")
+    want = P_div(P.c(1), 2 * P.s(pdt) * (nf - 1))
+    for c, x, g in grids[:1]:
+        nm = astq.callee_name(prog, fi, g)
+        spacing = count = start = None
+        if nm == "numpy.linspace" and len(g.args) >= 2:
+            a, b = se.ev(g.args[0]), se.ev(g.args[1])
+            n = astq.kwarg(g, "num", 2)
+            n = se.ev(n) if n is not None else P.c(50)
+            ep = astq.kwarg(g, "endpoint", 3)
+            inclusive = ep is None or (isinstance(ep, ast.Constant) and ep.value is True)
+            if a is not None and b is not None and n is not None and (ep is None or isinstance(ep, ast.Constant)):
+                spacing = P_div(b - a, (n - 1) if inclusive else n)
+                count, start = n, a
+        elif nm == "numpy.arange":
+            # arange(n) * d   (possibly inside a product): the factor multiplying the ramp up to the 2 pi dt of the exponent
+            par = astq.parent_map(x)
+            node = g
+            fac = P.c(1)
+            while isinstance(par.get(node), ast.BinOp) and isinstance(par[node].op, (ast.Mult, ast.Div)):
+                up = par[node]
+                other = up.right if up.left is node else up.left
+                if isinstance(other, ast.Constant) and isinstance(other.value, complex):
+                    node = up
+                    continue
+                v = se.ev(other)
+                txt = astq.src(other)
+                if v is None or "pi" in repr(v) or txt in (pdt, "sgn_basf"):
+                    node = up
+                    continue
+                fac = fac * v if isinstance(up.op, ast.Mult) else P_div(fac, v)
+                node = up
+            ra = symidx.range_args(se, g)
+            if ra is not None and ra[2] == P.c(1):
+                spacing, count, start = fac, ra[1] - ra[0], ra[0] * fac
+        if spacing is None:
+            run.ob("R-grid", fi.qual, "frequency grid of the basis function", None, f"grid `{astq.src(g, 60)}` not evaluable", file=f, node=c)
+            continue
+        from ..poly import ratio_equal
+        okr = ratio_equal(spacing, want)
+        ok = None if okr is None else (okr and count == nf and start == P.c(0))
+        run.ob("R-grid", fi.qual, "Nf lines from 0 to Nyquist inclusive: spacing 1/(2 dt (Nf-1))", ok,
+               f"grid `{astq.src(g, 60)}`: start {start!r}, spacing {spacing!r}, {count!r} lines (required spacing {want!r}, {nf!r} lines)", witness=f"{spacing!r}|{count!r}", file=f, node=c)
 
 
 def blank(prog, run):
@@ -249,6 +317,8 @@ def pad(prog, run):
 
 PL = "functions.plscf"
 MUTANTS = [
+    ("C05-m11 grid stops one line short of Nyquist", "functions.plscf", "pLSCF", "freq = np.linspace(0.0, fs / 2, Nf)", "freq = np.arange(Nf) * (fs / (2 * Nf))"),
+    ("C05-m12 grid without the end point", "functions.plscf", "pLSCF", "freq = np.linspace(0.0, fs / 2, Nf)", "freq = np.linspace(0.0, fs / 2, Nf, endpoint=False)"),
     ("C05-m01 eigenvectors not blanked", PL, "ac2mp_poly", "phi = np.dot(C, Q)", "phi = np.dot(C, AuVett)"),
     ("C05-m02 stable poles blanked instead", PL, "ac2mp_poly", "lam_c = np.where(np.real(lambd) > 0, np.nan, lambd)", "lam_c = np.where(np.real(lambd) > 0, lambd, np.nan)"),
     ("C05-m03 blanking on the imaginary part", PL, "ac2mp_poly", "np.where(np.real(lambd[ii]) > 0, np.repeat(np.nan, AuVett.shape[1]), AuVett[:, ii])", "np.where(np.imag(lambd[ii]) > 0, np.repeat(np.nan, AuVett.shape[1]), AuVett[:, ii])"),
@@ -261,6 +331,7 @@ MUTANTS = [
     ("C05-m10 damping not normalised", PL, "ac2mp_poly", "xi = -(np.real(lam_c) / abs(lam_c))", "xi = -np.real(lam_c)"),
 ]
 REWRITES = [
+    ("C05-r04 grid as a scaled index ramp", "functions.plscf", "pLSCF", "freq = np.linspace(0.0, fs / 2, Nf)", "freq = np.arange(Nf) * (fs / (2 * (Nf - 1)))"),
     ("rename:C05-r01", PL, "ac2mp_poly", "lambd", "lam_all"),
     ("C05-r02 division form", PL, "ac2mp_poly", "lambd = np.log(lam_d) * (1 / dt)", "lambd = np.log(lam_d) / dt"),
     ("C05-r03 attribute real", PL, "ac2mp_poly", "lam_c = np.where(np.real(lambd) > 0, np.nan, lambd)", "lam_c = np.where(lambd.real > 0, np.nan, lambd)"),
